@@ -79,3 +79,32 @@ def reach_condition(stmts, is_target):
             elif _terminates(s.body) and _terminates(s.orelse):
                 return None
     return None
+
+
+def inline_predicates(expr, scope_node):
+    """Replace calls of local one-expression predicates (`def p(x): return <expr>` / `p = lambda x: <expr>` defined in
+    scope_node) by their body with the parameters substituted: conditions are then read as if written in place."""
+    import copy
+    preds = {}
+    for n in ast.walk(scope_node):
+        if isinstance(n, ast.FunctionDef) and n is not scope_node:
+            body = [b for b in n.body if not (isinstance(b, ast.Expr) and isinstance(b.value, ast.Constant))]
+            if len(body) == 1 and isinstance(body[0], ast.Return) and body[0].value is not None:
+                preds[n.name] = ([a.arg for a in n.args.args], body[0].value)
+        elif isinstance(n, ast.Assign) and len(n.targets) == 1 and isinstance(n.targets[0], ast.Name) and isinstance(n.value, ast.Lambda):
+            preds[n.targets[0].id] = ([a.arg for a in n.value.args.args], n.value.body)
+
+    class Inl(ast.NodeTransformer):
+        def visit_Call(self, node):
+            self.generic_visit(node)
+            if isinstance(node.func, ast.Name) and node.func.id in preds and not node.keywords:
+                params, body = preds[node.func.id]
+                if len(params) == len(node.args):
+                    m = dict(zip(params, node.args))
+
+                    class Sub(ast.NodeTransformer):
+                        def visit_Name(self, nn):
+                            return copy.deepcopy(m[nn.id]) if nn.id in m and isinstance(nn.ctx, ast.Load) else nn
+                    return Sub().visit(copy.deepcopy(body))
+            return node
+    return Inl().visit(copy.deepcopy(expr))
